@@ -608,6 +608,15 @@ def rule_hold_queue_bound(ctx):
             detail or 'put_nowait() only, QueueFull not caught (%d producers)' % len(prods))
 
 
+
+def rule_overflow_released(ctx):
+    """(shared C10.e)  Requests are retained up to the configured queue size; the one that does not fit is refused
+    cleanly - its stream registration is given back before QueueFull reaches the caller (rules/c10.py)."""
+    from .c10 import rule_refused_request_is_released
+    rule_refused_request_is_released(ctx, 'C10.e')
+
+
+
 RULES = [('C14.a', rule_a), ('C14.b', rule_b), ('C14.c', rule_c), ('C14.d', rule_d), ('C14.e', rule_e),
          ('C08.g', rule_f),
-         ('C14.f', rule_gate_scope), ('C14.g', rule_ctor), ('C14.d+C14.e', rule_plumbing), ('C01.e', rule_dispatch), ('C14.h', rule_hold_queue_bound)]
+         ('C14.f', rule_gate_scope), ('C14.g', rule_ctor), ('C14.d+C14.e', rule_plumbing), ('C01.e', rule_dispatch), ('C14.h', rule_hold_queue_bound), ('C10.e', rule_overflow_released)]
